@@ -417,7 +417,8 @@ def check_graph(rec, rng, ctx, ircfg, head, info, tier, case_id):
             if guilty == "ssa_to_unssa":
                 causes = sorted(c for c in stages.notes if c != "monitor error")
                 if causes:
-                    key = "pipeline=%s pass=ssa_to_unssa cause=%s" % (pname, " + ".join(causes))
+                    # the out-of-SSA step is shared by both SSA protocols: one key per mechanism
+                    key = "pass=ssa_to_unssa cause=%s" % " + ".join(causes)
             wit = dict(info)
             wit["unssa_monitors"] = stages.notes
             wit.update(pipeline=pname, guilty_pass=guilty, first_deviation=why,
